@@ -31,9 +31,19 @@ var vhSymbols = map[string]lexer.TokenType{"EOF": lexer.EOF, "A": vhTA, "B": vhT
 // slice; the reader content is ignored.
 type vhStreamDef struct {
 	toks []lexer.Token
+	syms map[string]lexer.TokenType
 }
 
-func (d *vhStreamDef) Symbols() map[string]lexer.TokenType { return vhSymbols }
+func (d *vhStreamDef) Symbols() map[string]lexer.TokenType {
+	if d.syms != nil {
+		return d.syms
+	}
+	return vhSymbols
+}
+
+// a second numbering of the same symbols: token types far from EOF (the 69th
+// symbol of a lexer) and positive ones (hand-written definitions)
+var vhFarSymbols = map[string]lexer.TokenType{"EOF": lexer.EOF, "A": -2, "B": 3, "C": -64, "Ws": -70, "Cm": 9}
 
 func (d *vhStreamDef) Lex(filename string, r io.Reader) (lexer.Lexer, error) {
 	return &vhStreamLexer{toks: d.toks}, nil
@@ -77,13 +87,21 @@ type vhConfig struct {
 	elide  []string // elided token names
 	ci     []string // case-insensitive token names
 	unions map[reflect.Type][]reflect.Type
-	opts   []Option // extra options (Union[...])
+	opts   []Option                   // extra options (Union[...])
+	syms   map[string]lexer.TokenType // symbol numbering (nil: vhSymbols)
+}
+
+func (c vhConfig) symbols() map[string]lexer.TokenType {
+	if c.syms != nil {
+		return c.syms
+	}
+	return vhSymbols
 }
 
 func (c vhConfig) elideMap() map[lexer.TokenType]bool {
 	m := map[lexer.TokenType]bool{}
 	for _, e := range c.elide {
-		m[vhSymbols[e]] = true
+		m[c.symbols()[e]] = true
 	}
 	return m
 }
@@ -91,7 +109,7 @@ func (c vhConfig) elideMap() map[lexer.TokenType]bool {
 func (c vhConfig) ciMap() map[lexer.TokenType]bool {
 	m := map[lexer.TokenType]bool{}
 	for _, e := range c.ci {
-		m[vhSymbols[e]] = true
+		m[c.symbols()[e]] = true
 	}
 	return m
 }
@@ -104,8 +122,12 @@ func (c vhConfig) ciMap() map[lexer.TokenType]bool {
 func vhBuild[G any](cfg vhConfig, def *vhStreamDef, k int) *Parser[G] {
 	var g G
 	key := "build:" + reflect.TypeOf(&g).String() + ":" + strings.Join(cfg.elide, ",") + ":" + strings.Join(cfg.ci, ",")
+	if cfg.syms != nil {
+		key += ":far"
+	}
+	def.syms = cfg.syms
 	base := vMemo(key, func() interface{} {
-		opts := []Option{Lexer(&vhStreamDef{})}
+		opts := []Option{Lexer(&vhStreamDef{syms: cfg.syms})}
 		if len(cfg.elide) > 0 {
 			opts = append(opts, Elide(cfg.elide...))
 		}
@@ -139,7 +161,7 @@ func vhC01[G any](cfg vhConfig) {
 
 	var g G
 	root := vhGrammar(reflect.TypeOf(g), cfg.unions)
-	rc := &refctx{T: toks, elide: cfg.elideMap(), k: k, sym: vhSymbols, ci: cfg.ciMap()}
+	rc := &refctx{T: toks, elide: cfg.elideMap(), k: k, sym: cfg.symbols(), ci: cfg.ciMap()}
 	accept, want, _ := rc.parse(root, trailing)
 	if rc.bug {
 		vReach("grammar-bug") // non-progressing accepted branch: outside C01
@@ -345,7 +367,7 @@ func vhC11[G any](cfg vhConfig) {
 	}
 	var g G
 	root := vhGrammar(reflect.TypeOf(g), cfg.unions)
-	rc := &refctx{T: toks, elide: cfg.elideMap(), k: k, sym: vhSymbols, ci: cfg.ciMap()}
+	rc := &refctx{T: toks, elide: cfg.elideMap(), k: k, sym: cfg.symbols(), ci: cfg.ciMap()}
 	accept, want, end := rc.parse(root, true)
 	if rc.bug || !accept {
 		return
